@@ -91,6 +91,7 @@ type Engine struct {
 	ghostFields map[string]*Sort
 	usedSpec    map[string]bool
 	trackAlloc  bool
+	calledContracts map[string]bool // non-trusted contracts relied on at call sites in this run
 	repo        string
 	tcProto     *typeCtx
 	inlineStd   map[string]bool
